@@ -26,8 +26,11 @@ EXPLANATION = (
     "element parsers and should_stop closures handed in), resolving every test of the look-ahead kind exactly; it shows "
     "that a list element parser never returns Ok (or Err(DoNothing) to parse_list) without having consumed a token, that "
     "no loop of the parser can go round without consuming a token (at end of file: without leaving the loop), and that no "
-    "routine re-enters itself before a token was consumed. Stack depth on nested input, termination of the lexer's "
-    "character loops and of the formatter, and totality of later phases are not decided.")
+    "routine re-enters itself before a token was consumed. (R9.7, R9.8) The same interpreter over the lexer with the next "
+    "character as look-ahead (all ASCII characters, non-ASCII representatives, end of input): every loop of the lexer "
+    "takes a character each time round, and match_terminal takes at least one character unless at end of input, so the "
+    "terminal stream is finite. Stack depth on nested input, termination of the formatter, and totality of later phases "
+    "are not decided.")
 ASSUMPTIONS = ["Terminal::KIND of a terminal type named TerminalX is SyntaxKind::TerminalX (read from the facts)",
                "calls that take `&mut Parser` and are not in the non-consuming list may consume a terminal",
                "class U inventory rows are not individually triaged"]
@@ -478,6 +481,49 @@ def _progress(ctx, names):
     ctx.notes.append("progress interpreter: %d (routine, kind, context) summaries, %d loop explorations, %d states; contexts fixpoint in %d rounds" % (
         len(ai.memo), n_runs, ai.n_explored, rounds))
     ctx._c09_ai = (ai, F, pf, contexts)
+
+    # R9.7 / R9.8 the same interpreter over the lexer: the look-ahead is the next character
+    lai = A.LexerAI(F, names)
+    lf = {p: f for p, f in F.fns.items() if f.body and f.crate == "cairo_lang_parser" and p.startswith(("cairo_lang_parser::lexer::", "<cairo_lang_parser::lexer::"))}
+    alphabet = A.lexer_alphabet()
+    lctx, _ = A.compute_contexts(F, lf)
+    n_lloops = 0
+    for p, f in sorted(lf.items()):
+        loops = natural_loops(f)
+        ordinal = 0
+        for h, body in sorted(loops.items() if isinstance(loops, dict) else loops):
+            ordinal += 1
+            n_lloops += 1
+            ctx.analysed(f)
+            if not lctx[p]:
+                ctx.ob("R9.7", "lexer-loop:%s#%d|no-context" % (fn_key(p), ordinal), False, "no calling context could be established", f.where())
+                continue
+            for cx in sorted(lctx[p], key=str):
+                before = set(lai.cycles)
+                for ch in alphabet:
+                    lai.from_block(f, h, ch, cx[0], cx[1])
+                new = [(key, lai.cycles[key]) for key in lai.cycles if key not in before]
+                ctx.ob("R9.7", "lexer-loop:%s#%d|%s" % (fn_key(p), ordinal, A.ctx_text(cx)), not new,
+                       "every way round the loop takes a character, for each of %d next characters (all ASCII, 3 non-ASCII representatives) and at end of input the loop is left" % (len(alphabet) - 1)
+                       if not new else "the loop can go round without taking a character: " + "; ".join(
+                           "next character %r via %s" % (chr(key[1]) if isinstance(key[1], int) else key[1], " > ".join(v[2][-5:])) for key, v in new[:3]),
+                       f.where(A._line(f, h)))
+    ctx.floor("loops of the lexer", n_lloops, 3)
+    mt = F.find1("cairo_lang_parser::lexer::Lexer", name="match_terminal")
+    ctx.analysed(mt)
+    bad = []
+    for ch in alphabet:
+        if ch == A.EOF_CHAR:
+            continue
+        for rav, consumed in lai.outcomes(mt.path, ch):
+            if not consumed:
+                bad.append("%r (%s)" % (chr(ch), " > ".join(lai.witness.get(((mt.path, ch, (), ()), (rav, consumed)), ())[-5:])))
+    ctx.ob("R9.8", "lexer:match_terminal-advances", not bad,
+           "for every next character other than end of input, match_terminal takes at least one character, so the terminal stream reaches end of file"
+           if not bad else "match_terminal can return a terminal without taking a character: " + "; ".join(bad[:4]), mt.where())
+    ctx.ob("R9.7", "lexer-interpreter:complete", not lai.limits and not lai.unknown_calls and not lai.recursions,
+           "no state limit, unknown lexer call or re-entry (%d summaries)" % len(lai.memo) if not (lai.limits or lai.unknown_calls or lai.recursions)
+           else "limits %s unknown %s recursions %s" % (len(lai.limits), list(lai.unknown_calls)[:3], list(lai.recursions)[:3]), "")
 
 
 def _controls(ctx, F, names, summaries, pfns):
